@@ -100,6 +100,11 @@ let () =
        | a :: r when Stdlib.List.length l >= 24 && Stdlib.List.for_all (fun y -> y = a) r ->
          Specfail ("c20_choice_varies_across_epochs", Printf.sprintf "chance node %s: deal %s at every one of %d epochs" k a (Stdlib.List.length l)) :: acc
        | _ -> acc) per_node []));
+  (* the sampler's transcript (first PRNG word and sampled branch at two nodes, 24 epochs) from this process and from a second one *)
+  register "xproc" (fun _ o ->
+    if o.(2) <> "1" then [Mismatch "the second process could not be run"] else
+    if o.(0) = o.(1) then [] else
+      [Specfail ("c20_same_choices_in_another_process", "the sampler's transcript at fixed (epoch, information set) pairs differs between two runs of the program")]);
   register "sampchance" (fun _ o -> if o.(0) = "1" then [] else [Specfail ("c20_chance_one_branch", o.(0))]);
   (* across epochs the choice follows the profile's weights (chi-square, 6.5 sigma) *)
   register "sampdist" (fun i o ->
